@@ -350,6 +350,26 @@ def gen_tree_facts(ctx):
         ctx.stage('regen', False, 'AST facts: %s' % str(e)[:300])
         return False
 
+def gen_tree_proto(ctx):
+    """T-gen (deep embedding, c02_proto.py): the statement trees of pvFindFirst(itemPred), operator++/--, pvMoveIf, pvMove are dumped
+    from the clang AST of the current headers into coq/Gen_TreeProto.v; ProtoSemC02.v interprets them, ProtoProofsC02.v proves them"""
+    import importlib.util, hashlib
+    out = os.path.join(ctx.cdir, 'Gen_TreeProto.v')
+    try:
+        sp = importlib.util.spec_from_file_location('c02_proto', os.path.join(ctx.pdir, 'c02_proto.py'))
+        m = importlib.util.module_from_spec(sp); sp.loader.exec_module(m)
+        txt = m.translate(os.path.join(ctx.pdir, 'inst_ts.cpp'), ctx.repo)
+        if not os.path.exists(out) or open(out).read() != txt:
+            open(out, 'w').write(txt)
+        ctx.tie_obligations.append({'name': 'translate Gen_TreeProto (deep embedding: pvFindFirst descent, iterator ++ / -- / pvMoveIf / pvMove)', 'ok': True,
+                                    'sha256': hashlib.sha256(txt.encode()).hexdigest()[:16]})
+        return True
+    except Exception as e:
+        if os.path.exists(out): os.remove(out)
+        ctx.tie_obligations.append({'name': 'translate Gen_TreeProto', 'ok': False, 'error': str(e)[:400]})
+        ctx.stage('regen', False, 'deep embedding: %s' % str(e)[:300])
+        return False
+
 def gen_cases(ctx, scale, modelled_only):
     r = ctx.rng
     cases = []
@@ -523,7 +543,7 @@ def replay(ctx, rp):
     bad = '!' in out[0] or out[0].startswith('<missing')
     if rp.get('model') and not bad:
         # a correspondence violation: re-run the model as well
-        ctx.regen(GEN); gen_tree_facts(ctx); ctx.prove()
+        ctx.regen(GEN); gen_tree_facts(ctx); gen_tree_proto(ctx); ctx.prove()
         if ctx.stages.get('prove', {}).get('ok') and ctx.extract():
             path = os.path.join(ctx.build, 'replay.model.cases'); open(path, 'w').write(case + '\n')
             rc, lines, e = ctx.run_lines([ctx.model_exe], path)
@@ -535,7 +555,7 @@ def replay(ctx, rp):
 
 def run(ctx):
     scale = 1 if ctx.quick() else 8
-    ctx.trusted += ['tools/cxx2coq.py + clang 14 JSON AST for GetSplitItemIndex / GetCapacity / pvGetLeafMemPoolIndex / Node::AcceptBackItem, Remove, pvAcceptBackItem, pvRemove, pvInitIndexes, GetCount of both layouts incl. the std::copy / std::copy_backward range copies on the index table and the child array (translated as a parallel range copy; the standard no-overlap preconditions of the two algorithms are assumed) / the decision prefix of TreeSet::pvRebalance / the AddSegment trace of Relocator::pvSplitNode / pvIsOrdered(iter, iter) / pvFindFirst(Node*, pred) both strategies / the CreateNode counts of pvSplitNode; props/C02/astfacts.py (own walker over the same clang JSON AST) for the pvMergeFast if-chain of MergeTo, pvIsOrdered(set, set) the statements of the root-collapse loop and the stop rule of the climbing loop of pvRebalance; ASSUMED primitive: ItemTraits::ShiftNothrow(begin, shift) on the continuous item array rotates [begin, begin+shift] by one (its proof is C03); skipped: item creator / remover functors; validated through the shape and the node-level byte correspondence',
+    ctx.trusted += ['tools/cxx2coq.py + clang 14 JSON AST for GetSplitItemIndex / GetCapacity / pvGetLeafMemPoolIndex / Node::AcceptBackItem, Remove, pvAcceptBackItem, pvRemove, pvInitIndexes, GetCount of both layouts incl. the std::copy / std::copy_backward range copies on the index table and the child array (translated as a parallel range copy; the standard no-overlap preconditions of the two algorithms are assumed) / the decision prefix of TreeSet::pvRebalance / the AddSegment trace of Relocator::pvSplitNode / pvIsOrdered(iter, iter) / pvFindFirst(Node*, pred) both strategies / the CreateNode counts of pvSplitNode; props/C02/astfacts.py (own walker over the same clang JSON AST) for the pvMergeFast if-chain of MergeTo, pvIsOrdered(set, set) the statements of the root-collapse loop and the stop rule of the climbing loop of pvRebalance; props/C02/c02_proto.py (generic statement-tree dumper copied from props/C07/proto2coq.py) for the descent of pvFindFirst(itemPred) and the iterator steps, with coq/ProtoSemC02.v as their (trusted-by-inspection) semantics: Node* = path into the hand tree, MOMO_CHECK / MOMO_ASSERT statements dropped; ASSUMED primitive: ItemTraits::ShiftNothrow(begin, shift) on the continuous item array rotates [begin, begin+shift] by one (its proof is C03); skipped: item creator / remover functors; validated through the shape and the node-level byte correspondence',
                     'extraction: ExtrOcamlBasic only (no Extract Constant; Extraction Blacklist for module names), OCaml 4.13.1, zarith for decimal I/O only',
                     'g++ 12 -std=c++17, harness reaches private members via #define private public',
                     'the hand-written model coq/BTreeModel.v is tied to TreeSet.h by differential execution only (T-cor), on the listed configurations']
@@ -544,6 +564,7 @@ def run(ctx):
                         '1 <= maxCapacity <= 255 (static assert of the source)']
     ctx.regen(GEN)
     gen_tree_facts(ctx)
+    gen_tree_proto(ctx)
     ctx.prove()
     harn = build_harness(ctx)
     if harn is None:
